@@ -135,11 +135,17 @@ impl SNet {
         let Some(r) = &self.relay else { return };
         let mut buf = vec![0u8; 65536];
         while let Ok((n, from)) = r.recv_from(&mut buf) {
-            if n < 10 || buf[3] != 1 {
+            if n < 10 || !(buf[3] == 1 || (buf[3] == 4 && n >= 22)) {
                 continue;
             }
-            let dst = SocketAddr::from(([buf[4], buf[5], buf[6], buf[7]], u16::from_be_bytes([buf[8], buf[9]])));
-            let body = &buf[10..n];
+            let (dst, hl) = if buf[3] == 1 {
+                (SocketAddr::from(([buf[4], buf[5], buf[6], buf[7]], u16::from_be_bytes([buf[8], buf[9]]))), 10)
+            } else {
+                let mut a = [0u8; 16];
+                a.copy_from_slice(&buf[4..20]);
+                (SocketAddr::from((a, u16::from_be_bytes([buf[20], buf[21]]))), 22)
+            };
+            let body = &buf[hl..n];
             let (f, id) = identify(body, short);
             let src = if (1..=S_FLOWS.len()).contains(&f) { S_FLOWS[f - 1].0 } else { "?" };
             let via = self.src_of.entry(from).or_insert_with(|| src.to_string()).clone();
@@ -354,10 +360,10 @@ impl<'a> SRun<'a> {
                         let body = payload_sized('r', *f, id, MAX_SOCKS);
                         ev("PeerReply", format!("\"f\":{},\"id\":{},\"n\":{}", f, id, body.len()));
                         self.world.lock().unwrap().replies.push((self.net.addrs[dn], self.net.addrs[sn], (*f, id, body.len())));
-                        let mut pkt = vec![0u8, 0, 0, 1];
-                        if let SocketAddr::V4(x) = self.net.addrs[dn] {
-                            pkt.extend_from_slice(&x.ip().octets());
-                            pkt.extend_from_slice(&x.port().to_be_bytes());
+                        let mut pkt = vec![0u8, 0, 0];
+                        match self.net.addrs[dn] {
+                            SocketAddr::V4(x) => { pkt.push(1); pkt.extend_from_slice(&x.ip().octets()); pkt.extend_from_slice(&x.port().to_be_bytes()); }
+                            SocketAddr::V6(x) => { pkt.push(4); pkt.extend_from_slice(&x.ip().octets()); pkt.extend_from_slice(&x.port().to_be_bytes()); }
                         }
                         pkt.extend_from_slice(&body);
                         let _ = self.net.relay.as_ref().unwrap().send_to(&pkt, to);
